@@ -10,6 +10,7 @@ import (
 	"encoding/json"
 	"fmt"
 	"os"
+	"time"
 )
 
 // Record is the native replay record (written by gosym for a counterexample).
@@ -294,3 +295,14 @@ func ForkReads(on bool) {}
 
 // IsSkip reports whether a recovered panic value is a violated assumption.
 func IsSkip(r any) bool { _, ok := r.(skip); return ok }
+
+// Model clock and channels (symbolic only; used by the retry-getter harness).
+func Now() int64      { panic("zzvp: model clock is symbolic only") }
+func Advance(d int64) { panic("zzvp: model clock is symbolic only") }
+
+// TimerChan / DoneChan return channels that become ready d nanoseconds of model time from now.
+func TimerChan(d int64) <-chan time.Time { panic("zzvp: model channels are symbolic only") }
+func DoneChan(d int64) <-chan struct{}  { panic("zzvp: model channels are symbolic only") }
+
+// SameRef reports whether two maps / slices / pointers are the very same object.
+func SameRef(a, b any) bool { panic("zzvp: symbolic only") }
